@@ -1,0 +1,97 @@
+//go:build verif
+
+// Verification hook (add-only, compiled only with -tags verif): Step with a STALLED writer. In
+// relayFrames a writer goroutine takes frames from relay.output and writes them to the destination;
+// when the destination accepts no bytes it stands still, the 15-slot channel fills, and the reader
+// blocks on it until the writer moves again. VerifRelayPair.Step drains the channels at once, so that
+// schedule is never seen there. Nothing here is reachable without the build tag.
+
+package h2
+
+import (
+	"fmt"
+	"time"
+)
+
+// StepStalled is Step while the writers of the relays marked in stalled (index = Direction) stand
+// still: their output channels are not drained. Only when processFrame itself has made no progress
+// for a while and such a channel is full - the reader is blocked on it - one frame is let through,
+// as a writer that makes minimal progress would; a late release only makes the stall less strict.
+func (p *VerifRelayPair) StepStalled(dir Direction, stalled [2]bool) error {
+	r := p.relay(dir)
+	f, err := r.src.ReadFrame()
+	if err != nil {
+		return fmt.Errorf("reading frame: %w", err)
+	}
+	done := make(chan error, 1)
+	go func() {
+		defer func() {
+			if x := recover(); x != nil {
+				done <- fmt.Errorf("panic in processFrame: %v", x)
+			}
+		}()
+		done <- r.processFrame(f)
+	}()
+	rel := [2]*relay{p.relay(Direction(0)), p.relay(Direction(1))}
+	drainFree := func() bool {
+		any := false
+		for i, rr := range rel {
+			if stalled[i] {
+				continue
+			}
+			for {
+				select {
+				case q := <-rr.output:
+					p.write(rr, q)
+					any = true
+					continue
+				default:
+				}
+				break
+			}
+		}
+		return any
+	}
+	idle := 0
+	for {
+		progressed := drainFree()
+		select {
+		case err := <-done:
+			drainFree()
+			if err == nil {
+				err = p.writeErr
+			}
+			return err
+		default:
+		}
+		if progressed {
+			idle = 0
+			continue
+		}
+		if idle++; idle > 20 {
+			for i, rr := range rel {
+				if stalled[i] && len(rr.output) == cap(rr.output) {
+					p.write(rr, <-rr.output)
+					idle = 0
+					break
+				}
+			}
+		}
+		time.Sleep(50 * time.Microsecond)
+	}
+}
+
+// Release lets every writer run again: all output channels are drained into the destinations.
+func (p *VerifRelayPair) Release() {
+	for _, rr := range []*relay{p.cToS, p.sToC} {
+		for {
+			select {
+			case q := <-rr.output:
+				p.write(rr, q)
+				continue
+			default:
+			}
+			break
+		}
+	}
+}
